@@ -936,3 +936,144 @@ func (c *Ctx) errorOrientation(rule string, rels ...string) {
 	}
 	run.Count("error_tests", n)
 }
+
+// inlineBoolGuards expands, in a loop body, `if !f(a, b, …) { E… }` where f is an unexported
+// function or method of the package that reports success as a bool: its body (assignments, calls
+// and ifs, the arguments being identifiers) replaces the statement, every `return false` becoming
+// E… and the final `return true` falling through to what follows. The per-element work of a
+// loop moved into a helper that "reports whether it succeeded" is analysed as if it stood in the
+// loop.
+func (c *Ctx) inlineBoolGuards(info *types.Info, list []ast.Stmt) []ast.Stmt {
+	var out []ast.Stmt
+	for _, s := range list {
+		is, ok := s.(*ast.IfStmt)
+		if !ok || is.Init != nil || is.Else != nil {
+			out = append(out, s)
+			continue
+		}
+		u, ok := ast.Unparen(is.Cond).(*ast.UnaryExpr)
+		if !ok || u.Op != token.NOT {
+			out = append(out, s)
+			continue
+		}
+		call, ok := ast.Unparen(u.X).(*ast.CallExpr)
+		if !ok {
+			out = append(out, s)
+			continue
+		}
+		fn := callee(info, call)
+		if fn == nil || fn.Exported() {
+			out = append(out, s)
+			continue
+		}
+		d := c.P.Decls[fn.Origin()]
+		sig, _ := fn.Type().(*types.Signature)
+		if d == nil || d.Decl.Body == nil || d.Pkg.TypesInfo != info || sig == nil || sig.Results().Len() != 1 || !types.Identical(sig.Results().At(0).Type(), types.Typ[types.Bool]) {
+			out = append(out, s)
+			continue
+		}
+		sub := map[types.Object]*ast.Ident{}
+		plain := true
+		i := 0
+		for _, f := range d.Decl.Type.Params.List {
+			for _, nm := range f.Names {
+				if i >= len(call.Args) {
+					plain = false
+					break
+				}
+				a, isIdent := ast.Unparen(call.Args[i]).(*ast.Ident)
+				if !isIdent {
+					plain = false
+					break
+				}
+				sub[info.ObjectOf(nm)] = a
+				i++
+			}
+		}
+		// the receiver of a method is the expression it was called on (an identifier)
+		if d.Decl.Recv != nil && len(d.Decl.Recv.List) == 1 && len(d.Decl.Recv.List[0].Names) == 1 {
+			if sel, isSel := ast.Unparen(call.Fun).(*ast.SelectorExpr); isSel {
+				if rid, isID := ast.Unparen(sel.X).(*ast.Ident); isID {
+					sub[info.ObjectOf(d.Decl.Recv.List[0].Names[0])] = rid
+				} else {
+					plain = false
+				}
+			}
+		}
+		if !plain {
+			out = append(out, s)
+			continue
+		}
+		cl := &astCloner{info: info, sub: sub}
+		var conv func(list []ast.Stmt, top bool) ([]ast.Stmt, bool)
+		conv = func(list []ast.Stmt, top bool) ([]ast.Stmt, bool) {
+			var res []ast.Stmt
+			for k, st := range list {
+				switch x := st.(type) {
+				case *ast.ReturnStmt:
+					if len(x.Results) != 1 {
+						return nil, false
+					}
+					switch exprString(x.Results[0]) {
+					case "false":
+						res = append(res, is.Body.List...)
+					case "true":
+						if !top || k != len(list)-1 {
+							return nil, false
+						}
+					default:
+						return nil, false
+					}
+				case *ast.IfStmt:
+					n := &ast.IfStmt{If: x.If, Cond: cl.expr(x.Cond)}
+					if x.Init != nil {
+						p, ok := cl.stmt(x.Init)
+						if !ok {
+							return nil, false
+						}
+						res = append(res, p)
+					}
+					b, ok := conv(x.Body.List, false)
+					if !ok {
+						return nil, false
+					}
+					n.Body = &ast.BlockStmt{Lbrace: x.Body.Lbrace, List: b, Rbrace: x.Body.Rbrace}
+					if x.Else != nil {
+						var el []ast.Stmt
+						if eb, isB := x.Else.(*ast.BlockStmt); isB {
+							el = eb.List
+						} else {
+							el = []ast.Stmt{x.Else}
+						}
+						e2, ok := conv(el, false)
+						if !ok {
+							return nil, false
+						}
+						n.Else = &ast.BlockStmt{Lbrace: x.Else.Pos(), List: e2, Rbrace: x.Else.End()}
+					}
+					res = append(res, n)
+				case *ast.BlockStmt:
+					b, ok := conv(x.List, false)
+					if !ok {
+						return nil, false
+					}
+					res = append(res, &ast.BlockStmt{Lbrace: x.Lbrace, List: b, Rbrace: x.Rbrace})
+				default:
+					p, ok := cl.stmt(st)
+					if !ok {
+						return nil, false
+					}
+					res = append(res, p)
+				}
+			}
+			return res, true
+		}
+		body, ok := conv(d.Decl.Body.List, true)
+		if !ok {
+			out = append(out, s)
+			continue
+		}
+		out = append(out, body...)
+	}
+	return out
+}
